@@ -84,7 +84,7 @@ def run_case(ctx, g, rng):
             if recs:
                 call(c.add_prefix, recs[0].prefix, recs[0].uri_prefix, [news], merge=True)
             allp = [p for r in spec.snapshot(c) for p in spec.all_p(r)]
-        run_matrix(api, c, inputs, allp, d)
+        run_matrix(api, c, inputs, allp, d, order=rng.choice(["input-major", "mode-major", "shuffled"]), rng=rng)
         check_mode_matrix(S.events, c, [spec.rec_dict(r) for r in spec.snapshot(c)], d, set(malformed(d)))
         S.events = []
         S.counters["wl:inputs"] += len(inputs)
@@ -94,28 +94,40 @@ def run_case(ctx, g, rng):
                       "expand": {f"strict={st},passthrough={pt}": call(c.expand, "nodelim", strict=st, passthrough=pt) for st, pt in MODES}})
 
 
-def run_matrix(api, c, inputs, allp, d):
+def run_matrix(api, c, inputs, allp, d, order="input-major", rng=None):
+    """Issue the whole (function x input x mode) matrix.  The relations are read from the trace afterwards, so the ORDER
+    of the calls is free: input-major (all modes of one string back to back), mode-major (the whole batch once per
+    mode - how a bulk caller works) or shuffled.  An answer that depends on which string was asked just before only
+    shows in the latter two (seed C08-O: a remembered last match)."""
     S = probe.S
     S.tracing = True
     S.events = []
-    try:
-        for x in inputs:
-            for name in SP:
-                for st, pt in MODES:
-                    call(getattr(c, name), x, strict=st, passthrough=pt)
-            for st in (False, True):
-                call(c.expand_all, x, strict=st)
-                call(c.parse, x, strict=st)
-                call(c.parse_curie, x, strict=st)
-                for rn in (False, True):
-                    call(c.parse_uri, x, strict=st, return_none=rn)
-        pairs = [(p, i) for p in (allp[:3] + allp[-2:] + ["nope", "", "nodelim"]) for i in ("1", "", d)]
-        for p, i in pairs:
+    plan = []
+    for x in inputs:
+        for name in SP:
             for st, pt in MODES:
-                call(c.expand_pair, p, i, strict=st, passthrough=pt)
-                call(c.expand_reference, api.ReferenceTuple(p, i), strict=st, passthrough=pt)
-            for st in (False, True):
-                call(c.expand_pair_all, p, i, strict=st)
+                plan.append((name, (x,), {"strict": st, "passthrough": pt}))
+        for st in (False, True):
+            plan.append(("expand_all", (x,), {"strict": st}))
+            plan.append(("parse", (x,), {"strict": st}))
+            plan.append(("parse_curie", (x,), {"strict": st}))
+            for rn in (False, True):
+                plan.append(("parse_uri", (x,), {"strict": st, "return_none": rn}))
+    pairs = [(p, i) for p in (allp[:3] + allp[-2:] + ["nope", "", "nodelim"]) for i in ("1", "", d)]
+    for p, i in pairs:
+        for st, pt in MODES:
+            plan.append(("expand_pair", (p, i), {"strict": st, "passthrough": pt}))
+            plan.append(("expand_reference", (api.ReferenceTuple(p, i),), {"strict": st, "passthrough": pt}))
+        for st in (False, True):
+            plan.append(("expand_pair_all", (p, i), {"strict": st}))
+    if order == "mode-major":
+        plan.sort(key=lambda t: (t[0], sorted(t[2].items())))  # stable: inputs keep their order within one mode
+    elif order == "shuffled":
+        rng.shuffle(plan)
+    S.counters[f"wl:matrix-order:{order}"] += 1
+    try:
+        for name, a, kw in plan:
+            call(getattr(c, name), *a, **kw)
     finally:
         S.tracing = False
 
